@@ -1,8 +1,8 @@
 SPECIFICATION Spec
 CONSTANTS
+  MaxOpts = 3
   KMax = 1
-  TMax = 2
-  Never = 99
+  TMax = 3
 INVARIANT Order
 INVARIANT ReleaseIff
 INVARIANT ReturnValue
